@@ -1,6 +1,222 @@
-//! C29: not implemented yet.
+//! C29: resource / archive / export operations run in a per-case temporary tree with symbolic links.
+//! Input  {op, tree:[[path,"d"]|[path,"f",content]|[path,"l",target]], base, rroot?, ident, data, label?, dest?, zip?}
+//!        (paths relative to the case directory; "$T" in a link target is the case directory)
+//! Output {r, obs.., created_dirs, created_files, modified, removed, real_root} — locations are real
+//!        (the snapshot walk does not follow links), relative to the case directory.
+use std::collections::BTreeMap;
+use std::io::Cursor;
+use std::path::{Path, PathBuf};
+
+use c2pa::{Builder, Reader, ResourceStore};
 use serde_json::{json, Value};
 
-pub fn run(_case: &Value) -> Value {
-    json!({"r": "unimplemented"})
+use crate::util::err_class;
+
+#[derive(Clone, PartialEq, Debug)]
+enum Ent {
+    Dir,
+    File(String),
+    Link(String),
+}
+
+fn snapshot(root: &Path) -> BTreeMap<String, Ent> {
+    let mut out = BTreeMap::new();
+    let mut stack = vec![root.to_path_buf()];
+    while let Some(d) = stack.pop() {
+        let rd = match std::fs::read_dir(&d) {
+            Ok(r) => r,
+            Err(_) => continue,
+        };
+        for e in rd.flatten() {
+            let p = e.path();
+            let rel = p.strip_prefix(root).expect("prefix").to_string_lossy().into_owned();
+            let md = match std::fs::symlink_metadata(&p) {
+                Ok(m) => m,
+                Err(_) => continue,
+            };
+            if md.file_type().is_symlink() {
+                let t = std::fs::read_link(&p).map(|t| t.to_string_lossy().into_owned()).unwrap_or_default();
+                out.insert(rel, Ent::Link(t));
+            } else if md.is_dir() {
+                out.insert(rel, Ent::Dir);
+                stack.push(p);
+            } else {
+                let c = std::fs::read(&p).unwrap_or_default();
+                let s = if c.len() > 64 { format!("<{} bytes>", c.len()) } else { String::from_utf8_lossy(&c).into_owned() };
+                out.insert(rel, Ent::File(s));
+            }
+        }
+    }
+    out
+}
+
+fn build_tree(t: &Path, tree: &Value) {
+    let ts = t.to_string_lossy().into_owned();
+    for e in tree.as_array().expect("tree") {
+        let p = t.join(e[0].as_str().expect("path"));
+        match e[1].as_str().expect("kind") {
+            "d" => std::fs::create_dir_all(&p).expect("mkdir"),
+            "f" => {
+                if let Some(parent) = p.parent() {
+                    std::fs::create_dir_all(parent).expect("mkdir parent");
+                }
+                std::fs::write(&p, e[2].as_str().unwrap_or("")).expect("write");
+            }
+            "l" => {
+                if let Some(parent) = p.parent() {
+                    std::fs::create_dir_all(parent).expect("mkdir parent");
+                }
+                let target = e[2].as_str().expect("target").replace("$T", &ts);
+                std::os::unix::fs::symlink(target, &p).expect("symlink");
+            }
+            k => panic!("unknown tree kind {k}"),
+        }
+    }
+}
+
+fn strip_t(s: &str, t: &Path) -> String {
+    s.replace(&*t.to_string_lossy(), "$T")
+}
+
+fn err_json(e: &c2pa::Error, t: &Path) -> Value {
+    let payload = match e {
+        c2pa::Error::ResourceNotFound(s) => strip_t(s, t),
+        _ => String::new(),
+    };
+    json!({"r": "err", "kind": err_class(e), "payload": payload})
+}
+
+pub fn run(case: &Value) -> Value {
+    let op = case["op"].as_str().expect("op");
+    let ident = case["ident"].as_str().unwrap_or("");
+    // purely lexical operations need no tree
+    match op {
+        "sanitize" => {
+            return match c2pa::verif_hooks::c29::sanitize_archive_path(ident) {
+                Ok(s) => json!({"r": "ok", "path": s}),
+                Err(e) => json!({"r": "err", "kind": err_class(&e)}),
+            };
+        }
+        "uri_to_path" => {
+            return match c2pa::verif_hooks::c29::uri_to_path(ident, case["label"].as_str()) {
+                Ok(p) => json!({"r": "ok", "path": p.to_string_lossy()}),
+                Err(e) => json!({"r": "err", "kind": err_class(&e)}),
+            };
+        }
+        "normalize" => {
+            let p = c2pa::verif_hooks::c29::normalize_lexically(Path::new(ident));
+            return json!({"r": "ok", "path": p.to_string_lossy(),
+                          "starts_with": case["label"].as_str().map(|b| p.starts_with(c2pa::verif_hooks::c29::normalize_lexically(Path::new(b))))});
+        }
+        _ => {}
+    }
+    let td = tempfile::tempdir().expect("tempdir");
+    let t: PathBuf = td.path().canonicalize().expect("canonical tempdir");
+    build_tree(&t, &case["tree"]);
+    let ident_owned = ident.replace("$T", &t.to_string_lossy());
+    let ident: &str = &ident_owned;
+    let base = t.join(case["base"].as_str().unwrap_or("root"));
+    let rroot = case["rroot"].as_str().map(|r| t.join(r));
+    let data = case["data"].as_str().unwrap_or("DATA").as_bytes().to_vec();
+    let before = snapshot(&t);
+
+    let mut store = ResourceStore::new();
+    store.set_base_path(&base);
+    if let Some(r) = &rroot {
+        store.set_resource_root(r);
+    }
+    let mut res = match op {
+        "add" => match store.add(ident, data) {
+            Ok(_) => json!({"r": "ok"}),
+            Err(e) => err_json(&e, &t),
+        },
+        "get" => match store.get(ident) {
+            Ok(v) => json!({"r": "ok", "content": String::from_utf8_lossy(&v)}),
+            Err(e) => err_json(&e, &t),
+        },
+        "write_stream" => {
+            let mut out = Cursor::new(Vec::new());
+            match store.write_stream(ident, &mut out) {
+                Ok(n) => json!({"r": "ok", "content": String::from_utf8_lossy(out.get_ref()), "n": n}),
+                Err(e) => err_json(&e, &t),
+            }
+        }
+        "exists" => json!({"r": "ok", "exists": store.exists(ident)}),
+        "path_for_id" => match store.path_for_id(ident) {
+            Some(p) => json!({"r": "ok", "path": strip_t(&p.to_string_lossy(), &t)}),
+            None => json!({"r": "ok", "path": Value::Null}),
+        },
+        "resolve" => {
+            let root = rroot.clone().unwrap_or_else(|| base.clone());
+            match c2pa::verif_hooks::c29::resolve_within_root(&base, &root, ident) {
+                Ok(p) => json!({"r": "ok", "path": strip_t(&p.to_string_lossy(), &t)}),
+                Err(e) => err_json(&e, &t),
+            }
+        }
+        "builder_add" => {
+            let mut b = Builder::from_context(crate::e2e::context(None));
+            b.set_base_path(&base);
+            match b.add_resource(ident, Cursor::new(data)) {
+                Ok(_) => json!({"r": "ok"}),
+                Err(e) => err_json(&e, &t),
+            }
+        }
+        "archive" => {
+            let zip = hex::decode(case["zip"].as_str().unwrap_or("")).expect("zip hex");
+            let mut b0 = Builder::from_context(crate::e2e::context(None));
+            b0.set_base_path(&base);
+            match b0.with_archive(Cursor::new(zip)) {
+                Ok(b) => {
+                    let (ids, has_base) = c2pa::verif_hooks::c29::builder_resources(&b);
+                    json!({"r": "ok", "ids": ids, "has_base": has_base})
+                }
+                Err(e) => err_json(&e, &t),
+            }
+        }
+        "to_folder" | "to_folder_list" => {
+            let bytes = crate::e2e::fixture(case["fixture"].as_str().unwrap_or("C.jpg"));
+            let reader = Reader::from_context(crate::e2e::context(None))
+                .with_stream("image/jpeg", Cursor::new(bytes))
+                .expect("fixture reads");
+            let dest = t.join(case["dest"].as_str().unwrap_or("dest"));
+            match reader.to_folder(&dest) {
+                Ok(_) => json!({"r": "ok"}),
+                Err(e) => err_json(&e, &t),
+            }
+        }
+        other => panic!("unknown op {other}"),
+    };
+    let after = snapshot(&t);
+    let mut created_dirs = vec![];
+    let mut created_files = vec![];
+    let mut created_links = vec![];
+    let mut modified = vec![];
+    let mut removed = vec![];
+    for (p, a) in &after {
+        match before.get(p) {
+            None => match a {
+                Ent::Dir => created_dirs.push(json!(p)),
+                Ent::File(c) => created_files.push(json!([p, c])),
+                Ent::Link(l) => created_links.push(json!([p, l])),
+            },
+            Some(b) if b != a => modified.push(json!([p, format!("{:?}", a)])),
+            _ => {}
+        }
+    }
+    for p in before.keys() {
+        if !after.contains_key(p) {
+            removed.push(json!(p));
+        }
+    }
+    res["created_dirs"] = json!(created_dirs);
+    res["created_files"] = json!(created_files);
+    res["created_links"] = json!(created_links);
+    res["modified"] = json!(modified);
+    res["removed"] = json!(removed);
+    let root = rroot.unwrap_or(base);
+    res["real_root"] = match root.canonicalize() {
+        Ok(p) => json!(p.strip_prefix(&t).map(|x| x.to_string_lossy().into_owned()).unwrap_or_else(|_| "<outside the case directory>".into())),
+        Err(_) => Value::Null,
+    };
+    res
 }
